@@ -301,6 +301,16 @@ EXTREME_NUMS = ["0", "1", "2", "31", "32", "33", "63", "64", "65", "127", "128",
                 "{1'b1 repeat 1000000000}", "{1'b1 repeat 18446744073709551615}", "(1 ==? 'x)", "('x / 1)", "('x << 'x)", "(1 << 'x)",
                 "(if 1 ? 2 : 3)", "(if 'x ? 2 : 3)", "(1 as u64)", "(-1 as u8)", "(300 as u8)", "(1.5 as u32)", "(1 as 0)", "(1 as 1000000000)"]
 
+# operands that build enormous bit-vectors (10^9 bits and more): fine alone (they are checked one by one in the
+# `const` class), but arithmetic on two of them is minutes of big-number work, not a hang — kept out of the
+# operator cross product and out of loop counts
+HUGE = {"(1 <<< 1000000000000)", "(2 ** 1000000)", "{1'b1 repeat 1000000000}", "{1'b1 repeat 18446744073709551615}",
+        "4294967296'h0", "100000'd1", "(1 as 1000000000)", "{1'b1 repeat -1}", "(1 >> 18446744073709551615)", "1e999", "1e308"}
+EXTREME_SMALL = [x for x in EXTREME_NUMS if x not in HUGE]
+# loop / generate counts: between 2^12 and the evaluate_size_limit (2^20) unrolling is slow (seconds to minutes) but
+# finite; smaller counts are quick, larger ones must be refused by the limit
+LOOP_COUNTS = [x for x in EXTREME_SMALL if x not in ("65535", "65536", "1000000", "1_0")]
+
 UNDEFINED = ["undefined_x", "Undefined::y", "$undefined", "$sv::pkg::x", "nowhere::Nothing::<1>", "self", "super"]
 
 CONST_TYPES = ["u32", "u64", "i32", "i64", "u8", "bit", "bit<64>", "bit<65>", "bit<128>", "bit<1>", "logic<64>", "logic<32>",
@@ -324,13 +334,14 @@ def hostile_programs(rng, tier):
     ops = ["+", "-", "*", "/", "%", "**", "<<", ">>", "<<<", ">>>", "&", "|", "^", "~^", "==", "!=", "<:", "<=", ">:", ">=", "&&", "||",
            "==?", "!=?"]
     for _ in range(220 if tier == "quick" else 6000):
-        a, b, o, t = rng.choice(E), rng.choice(E), rng.choice(ops), rng.choice(CONST_TYPES)
+        a, b, o, t = rng.choice(EXTREME_SMALL), rng.choice(EXTREME_SMALL), rng.choice(ops), rng.choice(CONST_TYPES)
         one("const-binop", "package P {\n    const X: %s = %s %s %s;\n}\nmodule A {\n    var a: logic<P::X>;\n    assign a = P::X;\n}\n" % (t, a, o, b))
     for _ in range(60 if tier == "quick" else 1500):
         a, o, t = rng.choice(E), rng.choice(["-", "~", "!", "&", "|", "^", "~&", "~|", "~^", "+"]), rng.choice(CONST_TYPES)
         one("const-unop", "module A {\n    const X: %s = %s%s;\n    let a: logic<8> = X;\n}\n" % (t, o, a))
     # widths, array dimensions, selects
     for w in E:
+        lw = w if w in LOOP_COUNTS else rng.choice(LOOP_COUNTS)
         one("width", "module A {\n    var a: logic<%s>;\n    assign a = 0;\n}\n" % w)
         one("array", "module A {\n    var a: logic<2> [%s];\n    assign a[0] = 0;\n}\n" % w)
         one("select", "module A {\n    var a: logic<8>;\n    var b: logic<8>;\n    assign a = 1;\n    assign b = a[%s];\n}\n" % w)
@@ -339,15 +350,15 @@ def hostile_programs(rng, tier):
         one("step-select", "module A {\n    var a: logic<8>;\n    var b: logic<8>;\n    assign a = 1;\n    assign b = a[%s step %s];\n}\n" % (w, rng.choice(E)))
         one("lhs-select", "module A {\n    var a: logic<8>;\n    assign a[%s] = 1;\n}\n" % w)
         one("repeat", "module A {\n    var a: logic<8>;\n    var b: logic<8>;\n    assign a = 1;\n    assign b = {a repeat %s};\n}\n" % w)
-        one("for-range", "module A {\n    var a: logic<8>;\n    always_comb {\n        a = 0;\n        for i in 0..%s {\n            a += 1;\n        }\n    }\n}\n" % w)
-        one("for-range-rev", "module A {\n    var a: logic<8>;\n    always_comb {\n        a = 0;\n        for i in rev %s..=%s {\n            a += i;\n        }\n    }\n}\n" % (w, rng.choice(E)))
+        one("for-range", "module A {\n    var a: logic<8>;\n    always_comb {\n        a = 0;\n        for i in 0..%s {\n            a += 1;\n        }\n    }\n}\n" % lw)
+        one("for-range-rev", "module A {\n    var a: logic<8>;\n    always_comb {\n        a = 0;\n        for i in rev %s..=%s {\n            a += i;\n        }\n    }\n}\n" % (lw, rng.choice(LOOP_COUNTS)))
         one("for-step", "module A {\n    var a: logic<8>;\n    always_comb {\n        a = 0;\n        for i in 0..10 step %s %s {\n            a += 1;\n        }\n    }\n}\n" % (rng.choice(["+=", "*=", "-=", "<<=", "/=", ">>="]), w))
-        one("gen-for", "module A {\n    for i in 0..%s :g {\n        var a: logic;\n        assign a = 0;\n    }\n}\n" % w)
+        one("gen-for", "module A {\n    for i in 0..%s :g {\n        var a: logic;\n        assign a = 0;\n    }\n}\n" % lw)
         one("gen-for-step", "module A {\n    for i in %s..10 step %s %s :g {\n        var a: logic;\n        assign a = 0;\n    }\n}\n" % (rng.choice(E), rng.choice(["+=", "*=", "-=", "<<="]), w))
         one("gen-if", "module A {\n    if %s :g {\n        var a: logic;\n        assign a = 0;\n    }\n}\n" % w)
         one("enum-width", "module A {\n    enum En: logic<%s> {\n        X = %s,\n        Y,\n    }\n    var a: En;\n    assign a = En::Y;\n}\n" % (w, rng.choice(E)))
         one("param-override", "module B #(\n    param W: u32 = 1,\n) (\n    o: output logic<W>,\n) {\n    assign o = 0;\n}\nmodule A {\n    var x: logic<8>;\n    inst b: B #(W: %s) (o: x);\n}\n" % w)
-        one("fn-arg", "module A {\n    function f (\n        n: input u32,\n    ) -> u32 {\n        var r: u32;\n        r = 0;\n        for i in 0..n {\n            r += 1;\n        }\n        return r;\n    }\n    const X: u32 = f(%s);\n    var a: logic<X>;\n    assign a = 0;\n}\n" % w)
+        one("fn-arg", "module A {\n    function f (\n        n: input u32,\n    ) -> u32 {\n        var r: u32;\n        r = 0;\n        for i in 0..n {\n            r += 1;\n        }\n        return r;\n    }\n    const X: u32 = f(%s);\n    var a: logic<X>;\n    assign a = 0;\n}\n" % lw)
         one("cast", "module A {\n    const W: u32 = 4;\n    var a: logic<8>;\n    assign a = %s as W;\n}\n" % w)
         one("case-item", "module A {\n    var a: logic<8>;\n    var b: logic<8>;\n    assign a = 1;\n    always_comb {\n        case a {\n            %s: b = 1;\n            %s..=%s: b = 2;\n            default: b = 0;\n        }\n    }\n}\n" % (w, rng.choice(E), rng.choice(E)))
         one("inside", "module A {\n    var a: logic<8>;\n    var b: logic;\n    assign a = 1;\n    assign b = inside a {%s, %s..%s};\n}\n" % (w, rng.choice(E), rng.choice(E)))
@@ -448,8 +459,9 @@ def hostile_programs(rng, tier):
         "wide-mul": "module A {\n    const X: bit<4096> = (1 << 4095) * (1 << 4095);\n    const Y: bit<65536> = 2 ** 65535;\n    var a: logic<8>;\n    assign a = X + Y;\n}\n",
         "big-struct": "module A {\n    struct S {\n" + "".join("        g%d: logic<64>,\n" % i for i in range(300)) + "    }\n    var s: S [64];\n    assign s[0].g299 = 1;\n}\n",
         "many-dims": "module A {\n    var a: logic<2, 2, 2, 2, 2, 2, 2, 2> [2, 2, 2, 2, 2, 2, 2, 2];\n    assign a[1][1][1][1][1][1][1][1][1][1][1][1][1][1][1][1][1] = 1;\n}\n",
-        "giant-dims": "module A {\n    var a: logic<65536, 65536> [65536, 65536];\n    var b: logic [1000000000];\n    assign a[0][0] = 1;\n    assign b = '{default: 0};\n}\n",
-        "giant-array-loop": "module A {\n    var b: logic<8> [100000];\n    always_comb {\n        for i in 0..100000 {\n            b[i] = i;\n        }\n    }\n}\n",
+        "giant-dims": "module A {\n    var a: logic [65536, 65536];\n    var b: logic [1000000000];\n    assign a[0][0] = 1;\n    assign b = '{default: 0};\n}\n",
+        "giant-width-2d": "module A {\n    var a: logic<65536, 65536>;\n    assign a[0][0] = 1;\n}\n",
+        "giant-array-loop": "module A {\n    var b: logic<8> [2000];\n    always_comb {\n        for i in 0..2000 {\n            b[i] = i;\n        }\n    }\n}\n",
         "proto-pkg": "proto package PP {\n    const X: u32;\n    type T;\n    function f () -> u32 ;\n}\npackage P for PP {\n}\nmodule A::<Q: PP> {\n    var a: Q::T<Q::X>;\n}\nmodule B {\n    inst a: A::<P>;\n}\n",
     }
     for k, v in rec.items():
@@ -474,6 +486,12 @@ def hostile_programs(rng, tier):
             continue
         pre, op, mid, cl, post = sp
         fit = DEEP_FIT[name]
+        if name == "forstmt":
+            # every level doubles the unrolled work (2^n): 4 and 8 are quick, 24 is the witness of the finding
+            for n in (4, 8):
+                one("deep:forstmt", pre + op * n + mid + cl * n + post)
+            one("deep:forstmt-exp", pre + op * 24 + mid + cl * 24 + post)
+            continue
         for n in ([20, fit // 2, fit] if tier == "quick" else [20, fit // 4, fit // 2, 3 * fit // 4, fit - 1, fit]):
             one("deep:%s" % name, pre + op * n + mid + cl * n + post)
     for n in ([100, 400] if tier == "quick" else [100, 400, 1000]):
